@@ -69,6 +69,7 @@ def run(report, tier, seed):
                 return False, {'error': r['err']}
             hits = r['result'].get('gemv', [])
             return bool(hits), {
+                'rerun': {'battery': 'sparse_gemv', 'oracles': ['gemv']},
                 'battery': 'engine/replay/sparse_gemv_battery.py: base.gemv '
                 'with a sparse matrix against the dense copy (overlay build '
                 'of the current tree)', 'failing_cases': hits[:8],
